@@ -221,6 +221,7 @@ struct Run {
     world: Rc<RefCell<World>>,
     sh: v::Shell,
     next_job: usize,
+    sets_used: usize,
     cfg: Cfg,
 }
 
@@ -378,12 +379,29 @@ impl Run {
     }
 
     fn launch(&mut self, fg: bool, k: usize) -> Result<(), Violation> {
-        let set = PID_SETS[self.next_job % PID_SETS.len()];
+        // process ids: a fresh set first; once the sets are used up, a set all of whose processes have been
+        // reaped is used again (a kernel reuses a pid only after it has been waited for)
+        let set = {
+            let w = self.world.borrow();
+            let free = |set: &[i32; 3]| set.iter().all(|p| w.procs.iter().all(|q| q.pid != *p || q.reaped));
+            // (hostile choice: a pid that has just been given back is the first to be handed out again)
+            let used = self.sets_used.min(PID_SETS.len());
+            match PID_SETS[..used].iter().find(|s| free(s)) {
+                Some(s) => *s,
+                None if used < PID_SETS.len() => {
+                    self.sets_used += 1;
+                    PID_SETS[used]
+                }
+                None => return Ok(()),           // every set still has an unreaped process: nothing to launch with
+            }
+        };
         self.next_job += 1;
         let pids: Vec<i32> = set[..k].to_vec();
         let gid = pids[0];
         {
             let mut w = self.world.borrow_mut();
+            // the earlier (reaped) holders of these pids are gone for good
+            w.procs.retain(|q| !(set.contains(&q.pid) && q.reaped));
             w.trace.push(format!("launch {} {:?}", if fg { "fg" } else { "bg" }, pids));
             for p in &pids {
                 w.procs.push(Proc { pid: *p, gid, state: KState::Run, pending: None, reaped: false, last_seen: 0 });
@@ -518,7 +536,7 @@ pub fn execute(path: &[usize], cfg: Cfg) -> Outcome {
         static BASE: v::Shell = v::Shell::new();
     }
     let sh = BASE.with(|b| b.clone());
-    let mut run = Run { world: world.clone(), sh, next_job: 0, cfg };
+    let mut run = Run { world: world.clone(), sh, next_job: 0, sets_used: 0, cfg };
     let mut launches = 0usize;
     let res = panic::catch_unwind(AssertUnwindSafe(|| -> Result<bool, Violation> {
         loop {
